@@ -48,20 +48,79 @@ struct Exec {
     answered: Vec<u64>,
     closed: bool,
     cancel: Arc<Mutex<bool>>,
+    /// message-ids are the library's business: the scripts, the model and the recorded events number the
+    /// requests by the rpc() call that produced them (1, 2, ...), and these maps translate to and from the
+    /// message-id that call put on the wire
+    real_of: BTreeMap<u64, u64>,
+    abs_of: BTreeMap<u64, u64>,
+    /// message-ids guessed for calls that had not been made yet (a reply pushed ahead of its request)
+    guessed: BTreeMap<u64, u64>,
+    /// a guess turned out wrong: the script did not do what it says, the case is not judged
+    misguessed: bool,
 }
 
 impl Exec {
+    /// the message-id (to be) used by call `abs`
+    fn real_id(&mut self, abs: u64) -> u64 {
+        if let Some(r) = self.real_of.get(&abs) {
+            return *r;
+        }
+        if let Some(r) = self.guessed.get(&abs) {
+            return *r;
+        }
+        // not sent yet: extrapolate from the newest message-id seen (one per call, as the ids seen so far suggest)
+        let (last_abs, last_real) = self.real_of.iter().next_back().map(|(a, r)| (*a, *r)).unwrap_or((0, 0));
+        let stride = {
+            let v: Vec<(&u64, &u64)> = self.real_of.iter().collect();
+            if v.len() >= 2 && v[v.len() - 1].0 - v[v.len() - 2].0 == 1 {
+                v[v.len() - 1].1.wrapping_sub(*v[v.len() - 2].1).max(1)
+            } else {
+                1
+            }
+        };
+        let guess = if abs > last_abs { last_real.wrapping_add((abs - last_abs).wrapping_mul(stride)) } else { abs };
+        self.guessed.insert(abs, guess);
+        guess
+    }
+
+    /// the call a message-id seen on the wire belongs to (a new one: the call in progress)
+    fn abs_id(&mut self, real: u64) -> u64 {
+        if let Some(a) = self.abs_of.get(&real) {
+            return *a;
+        }
+        let abs = self.calls.max(1);
+        if let Some(g) = self.guessed.get(&abs) {
+            if *g != real {
+                self.misguessed = true;
+            }
+        }
+        if self.real_of.contains_key(&abs) {
+            // one call, two different message-ids on the wire: keep the first, report the second as it is
+            return real;
+        }
+        self.abs_of.insert(real, abs);
+        self.real_of.insert(abs, real);
+        abs
+    }
+
     fn new() -> Self {
         let (t, ctl): (MemTransport, MemCtl) = mem_transport();
         ctl.push(server_hello(&["urn:ietf:params:netconf:base:1.0"], 7));
         let mut est: BoxFut<Result<Session<MemTransport>, netconf::Error>> =
             Box::pin(Session::verif_with_transport(t));
-        let session = match poll_once(&mut est) {
+        let mut polled = poll_once(&mut est);
+        for _ in 0..8 {
+            if polled.is_ready() {
+                break;
+            }
+            polled = poll_once(&mut est);
+        }
+        let session = match polled {
             Poll::Ready(Ok(s)) => s,
             Poll::Ready(Err(e)) => panic!("harness: session establishment failed: {e}"),
             Poll::Pending => panic!("harness: session establishment pending"),
         };
-        drop(est);
+        in_runtime(|| drop(est));
         let cmd: Arc<Mutex<Option<bool>>> = Arc::new(Mutex::new(None));
         let out: Arc<Mutex<Vec<CallerOut>>> = Arc::new(Mutex::new(Vec::new()));
         let cancel: Arc<Mutex<bool>> = Arc::new(Mutex::new(false));
@@ -121,34 +180,31 @@ impl Exec {
             answered: Vec::new(),
             closed: false,
             cancel,
+            real_of: BTreeMap::new(),
+            abs_of: BTreeMap::new(),
+            guessed: BTreeMap::new(),
+            misguessed: false,
         }
     }
 
     /// ids of requests that reached the transport since the last call
     fn new_sent(&mut self) -> Vec<u64> {
         let sent = self.ctl.sent();
-        let v = sent[self.seen_sent..]
-            .iter()
-            .map(|m| message_id_of(m).unwrap_or(0))
-            .collect();
+        let reals: Vec<u64> = sent[self.seen_sent..].iter().map(|m| message_id_of(m).unwrap_or(0)).collect();
         self.seen_sent = sent.len();
-        v
+        reals.into_iter().map(|r| self.abs_id(r)).collect()
     }
 
     fn poll_caller(&mut self) -> Value {
         let _ = poll_once(&mut self.caller);
-        let mut outs = self.out.lock().unwrap();
-        if let Some(o) = outs.pop() {
+        let popped = self.out.lock().unwrap().pop();
+        if let Some(o) = popped {
             self.caller_busy = false;
             match o {
                 CallerOut::Fut(f) => {
-                    // the future belongs to the newest id seen on the wire
-                    let id = self
-                        .ctl
-                        .sent()
-                        .last()
-                        .and_then(|m| message_id_of(m))
-                        .unwrap_or(0);
+                    // the future belongs to the newest request seen on the wire
+                    let real = self.ctl.sent().last().and_then(|m| message_id_of(m)).unwrap_or(0);
+                    let id = self.abs_id(real);
                     self.futs.insert(id, f);
                     json!({"caller": "idle", "ret": "fut", "fut": id})
                 }
@@ -161,7 +217,8 @@ impl Exec {
         }
     }
 
-    fn reply_xml(&self, id: u64, tag: u64) -> String {
+    fn reply_xml(&mut self, id: u64, tag: u64) -> String {
+        let id = self.real_id(id);
         format!(
             "<rpc-reply message-id=\"{id}\" xmlns=\"{BASE_NS}\"><data>T{tag}</data></rpc-reply>{EOM}"
         )
@@ -169,7 +226,8 @@ impl Exec {
 
     fn push_reply(&mut self, id: u64) -> u64 {
         self.next_tag += 1;
-        let x = self.reply_xml(id, self.next_tag);
+        let tag = self.next_tag;
+        let x = self.reply_xml(id, tag);
         self.ctl.push(x);
         self.next_tag
     }
@@ -222,7 +280,8 @@ impl Exec {
             "drop" => {
                 let t = c["t"].as_u64().unwrap();
                 ev["t"] = json!(t);
-                if self.futs.remove(&t).is_some() {
+                if let Some(f) = self.futs.remove(&t) {
+                    in_runtime(|| drop(f));
                     self.dropped.push(t);
                 } else {
                     ev["skipped"] = json!(true);
@@ -243,6 +302,7 @@ impl Exec {
                 self.next_tag += 1;
                 ev["id"] = json!(id);
                 ev["tag"] = json!(self.next_tag);
+                let id = self.real_id(id);
                 self.ctl.push(format!(
                     "<rpc-reply message-id=\"{id}\" xmlns=\"{BASE_NS}\"><data>T{}</wrong></rpc-reply>{EOM}",
                     self.next_tag
@@ -256,8 +316,9 @@ impl Exec {
                 ev["id"] = json!(id);
                 ev["tag"] = json!(self.next_tag);
                 let other = if id == 1 { 2 } else { id - 1 };
+                let (id, other_real) = (self.real_id(id), self.real_id(other));
                 self.ctl.push(format!(
-                    "<rpc-reply message-id=\"{id}\" xmlns=\"{BASE_NS}\"><data>T{}</data></rpc-reply><rpc-reply message-id=\"{other}\" xmlns=\"{BASE_NS}\"><data>T{}</data></rpc-reply>{EOM}",
+                    "<rpc-reply message-id=\"{id}\" xmlns=\"{BASE_NS}\"><data>T{}</data></rpc-reply><rpc-reply message-id=\"{other_real}\" xmlns=\"{BASE_NS}\"><data>T{}</data></rpc-reply>{EOM}",
                     self.next_tag,
                     900 + other
                 ));
@@ -265,7 +326,8 @@ impl Exec {
             "garbage" => {
                 self.next_tag += 1;
                 ev["tag"] = json!(self.next_tag);
-                self.ctl.push(format!("<rpc-reply message-id=\"1\" <<<{EOM}"));
+                let one = self.real_id(1);
+                self.ctl.push(format!("<rpc-reply message-id=\"{one}\" <<<{EOM}"));
             }
             "close" => {
                 self.closed = true;
@@ -340,11 +402,9 @@ impl Exec {
 }
 
 impl Exec {
-    fn sent_ids(&self) -> Vec<u64> {
-        self.ctl.sent()[1..]
-            .iter()
-            .filter_map(|m| message_id_of(m))
-            .collect()
+    fn sent_ids(&mut self) -> Vec<u64> {
+        let reals: Vec<u64> = self.ctl.sent()[1..].iter().filter_map(|m| message_id_of(m)).collect();
+        reals.into_iter().map(|r| self.abs_id(r)).collect()
     }
 
     /// Epilogue of every case: the peer becomes responsive (send side freed, every
@@ -398,6 +458,12 @@ fn run_case(case: &str, cmds: &[Value], out: &mut dyn Write) {
                 evs.push(e);
             }
         }
+        if ex.misguessed {
+            // a reply was pushed ahead of its request under a message-id the library then did not use: the
+            // script did not do what it says, nothing can be concluded from this case
+            evs = vec![json!({"ev": "nomodel"}), json!({"ev": "quiesce", "pending": [], "caller_busy": false, "inbox": 0, "not_judged": "message-ids not predictable"})];
+        }
+        in_runtime(|| drop(ex));
         evs
     }));
     match r {
@@ -432,12 +498,7 @@ fn random_case(
     let mut answered: Vec<u64> = Vec::new();
     let mut ndrops = 0;
     let mut closed = false;
-    let sent_ids = |ex: &Exec| -> Vec<u64> {
-        ex.ctl.sent()[1..]
-            .iter()
-            .filter_map(|m| message_id_of(m))
-            .collect()
-    };
+    let sent_ids = |ex: &mut Exec| -> Vec<u64> { ex.sent_ids() };
     let mut step = |ex: &mut Exec, c: Value, cmds: &mut Vec<Value>, emit: &mut dyn FnMut(Value)| {
         if c["c"] == "quiesce" {
             ex.quiesce(emit);
@@ -610,7 +671,9 @@ fn stress_case(seed: u64, case: &str, out: &mut dyn Write) -> bool {
         let mut rpc_errs: Vec<String> = Vec::new();
         for k in 0..n {
             let r = session.rpc::<Get, _>(|b| b.filter(None).finish()).await;
-            let id = (k + 1) as u64;
+            let _ = k;
+            // the request just sent is the newest on the wire (this task is the only sender)
+            let id = ctl.sent().last().and_then(|m| message_id_of(m)).unwrap_or(0);
             match r {
                 Ok(fut) => {
                     let f: ReplyFut = Box::pin(async move { fut.await.map(|o| o.to_string()) });
@@ -682,6 +745,19 @@ fn stress_case(seed: u64, case: &str, out: &mut dyn Write) -> bool {
         (sent, pushes, results, pending, rpc_errs, panicked)
     });
     let (sent, pushes, results, mut pending, rpc_errs, panicked) = res;
+    // message-ids are the library's business: the events number the requests by their position on the wire
+    // (a message-id used twice keeps its first number, which is what the contract's UniqueIds looks at)
+    let mut first: Vec<u64> = Vec::new();
+    for r in &sent {
+        if !first.contains(r) {
+            first.push(*r);
+        }
+    }
+    let abs = |r: u64| -> u64 { first.iter().position(|x| *x == r).map(|p| p as u64 + 1).unwrap_or(r) };
+    let sent: Vec<u64> = sent.iter().map(|r| abs(*r)).collect();
+    let pushes: Vec<u64> = pushes.iter().map(|r| abs(*r)).collect();
+    let results: Vec<(u64, Result<String, String>)> = results.into_iter().map(|(i, r)| (abs(i), r)).collect();
+    pending = pending.into_iter().map(abs).collect();
     lines.push(json!({"ev": "pollc", "sent": sent, "res": {"caller": "idle", "ret": "none"}}));
     for e in rpc_errs {
         lines.push(json!({"ev": "rpc", "good": true, "res": {"caller": "idle", "ret": "err", "err": e}}));
@@ -755,10 +831,27 @@ fn main() {
                 emit(json!({"ev": "reset"}));
                 let r = std::panic::catch_unwind(std::panic::AssertUnwindSafe(|| {
                     let mut ex = Exec::new();
-                    random_case(&mut rng, len, drops, faults, 6, &mut ex, &mut emit)
+                    let cmds = random_case(&mut rng, len, drops, faults, 6, &mut ex, &mut emit);
+                    let mis = ex.misguessed;
+                    in_runtime(|| drop(ex));
+                    (cmds, mis)
                 }));
                 let cmds = match r {
-                    Ok(c) => c,
+                    Ok((c, false)) => c,
+                    Ok((c, true)) => {
+                        // (see run_case) a reply was pushed ahead of its request under a message-id the library did not use
+                        lines.truncate(1);
+                        seq = 1;
+                        for v in [json!({"ev": "nomodel"}),
+                                  json!({"ev": "quiesce", "pending": [], "caller_busy": false, "inbox": 0, "not_judged": "message-ids not predictable"})] {
+                            let mut v = v;
+                            seq += 1;
+                            v["case"] = json!(case);
+                            v["seq"] = json!(seq);
+                            lines.push(v.to_string());
+                        }
+                        c
+                    }
                     Err(_) => {
                         emit(json!({"ev": "panic", "msg": "panic in code under test"}));
                         Vec::new()
